@@ -337,7 +337,9 @@ func DisplayLine(l *Line, indent int) {
 
 		// Clear everything after each line, except the last.
 		if num < len(lines)-1 {
-			if len(line)+indent < term.GetWidth() {
+			// (unless the text ends exactly at the right margin, where
+			// some terminals would erase the last character instead)
+			if x, y := strutil.LineSpan([]rune(line), 0, indent); x != 0 || y == 0 {
 				line += term.ClearLineAfter
 			}
 
